@@ -7,6 +7,12 @@
 // a crash, not a silent read; nothing is NUL-terminated unless the overload takes a C string.
 // In the plain build the guards are readable and filled with the OTHER argument's characters
 // (an over-read then continues a partial match instead of hitting a harmless terminator).
+//
+// Review additions (second engineer): call forms without the defaulted argument (`*_d`, `*_cd`, `*_pd`,
+// `substr_d0/d1`, `copy_d`), the heterogeneous relational operators (`rel_pl`: C string OP view, `rel_pr`: view OP
+// C string - these select the type_identity overloads), operator[]/front/back/swap as operations, a probe that
+// repeats every call whose haystack / needle is empty with a default-constructed (data() == nullptr) view and
+// reports a difference, and a copy() destination of exactly the expected length whose surroundings are checked.
 #include "common.hpp"
 
 #include <etl/string_view.hpp>
@@ -118,6 +124,25 @@ struct Run {
         for (std::size_t i = 0; i < sub.size(); ++i) { o.num(static_cast<i64>(sub.data()[i])); }
     }
 
+    // Empty views: repeat the call with default-constructed views (data() == nullptr, size() == 0) in place of the
+    // empty non-null ones; the result must be the same (printed only when it is not).
+    template <typename R, typename G>
+    static void null_probe(Out& o, bool hayEmpty, bool needleEmpty, R const& r, E hv, E nv, G g)
+    {
+        if (hayEmpty) {
+            auto r2 = g(E{}, nv);
+            if (!(r2 == r)) { o.tok("null-haystack-differs").num(static_cast<i64>(r2)); }
+        }
+        if (needleEmpty) {
+            auto r2 = g(hv, E{});
+            if (!(r2 == r)) { o.tok("null-needle-differs").num(static_cast<i64>(r2)); }
+        }
+        if (hayEmpty && needleEmpty) {
+            auto r2 = g(E{}, E{});
+            if (!(r2 == r)) { o.tok("null-both-differs").num(static_cast<i64>(r2)); }
+        }
+    }
+
     // the six search families: f(view, args...) calls the member under test
     template <typename F>
     static bool search(std::string const& variant, Toks& in, Out& impl, Out& ref, F f)
@@ -128,8 +153,43 @@ struct Run {
             auto pos = static_cast<std::size_t>(in.unum());
             Block<Char> bh(h, n);
             Block<Char> bn(n, h);
-            guarded(impl, [&](Out& o) { o.tok("ok").unum(f(E(bh.p, bh.n), E(bn.p, bn.n), pos)); });
+            guarded(impl, [&](Out& o) {
+                auto r = f(E(bh.p, bh.n), E(bn.p, bn.n), pos);
+                o.tok("ok").unum(r);
+                null_probe(o, h.empty(), n.empty(), r, E(bh.p, bh.n), E(bn.p, bn.n),
+                    [&](E hv, E nv) { return f(hv, nv, pos); });
+            });
             ref.tok("ok").unum(f(S(bh.p, bh.n), S(bn.p, bn.n), pos));
+            return true;
+        }
+        // the same members called WITHOUT pos: the declaration's default argument is used
+        if (variant == "d") {
+            auto n = in.list();
+            Block<Char> bh(h, n);
+            Block<Char> bn(n, h);
+            guarded(impl, [&](Out& o) {
+                auto r = f(E(bh.p, bh.n), E(bn.p, bn.n));
+                o.tok("ok").unum(r);
+                null_probe(o, h.empty(), n.empty(), r, E(bh.p, bh.n), E(bn.p, bn.n),
+                    [&](E hv, E nv) { return f(hv, nv); });
+            });
+            ref.tok("ok").unum(f(S(bh.p, bh.n), S(bn.p, bn.n)));
+            return true;
+        }
+        if (variant == "cd") {
+            auto c = static_cast<Char>(in.num());
+            Block<Char> bh(h, {static_cast<i64>(c)});
+            guarded(impl, [&](Out& o) { o.tok("ok").unum(f(E(bh.p, bh.n), c)); });
+            ref.tok("ok").unum(f(S(bh.p, bh.n), c));
+            return true;
+        }
+        if (variant == "pd") {
+            auto s = in.list();
+            Block<Char> bh(h, s);
+            Block<Char> bs(with_nul(s), h);
+            Char const* ptr = bs.p;
+            guarded(impl, [&](Out& o) { o.tok("ok").unum(f(E(bh.p, bh.n), ptr)); });
+            ref.tok("ok").unum(f(S(bh.p, bh.n), ptr));
             return true;
         }
         if (variant == "c") {
@@ -173,7 +233,12 @@ struct Run {
             auto n = in.list();
             Block<Char> bh(h, n);
             Block<Char> bn(n, h);
-            guarded(impl, [&](Out& o) { o.tok("ok").b(f(E(bh.p, bh.n), E(bn.p, bn.n))); });
+            guarded(impl, [&](Out& o) {
+                bool r = f(E(bh.p, bh.n), E(bn.p, bn.n));
+                o.tok("ok").b(r);
+                null_probe(o, h.empty(), n.empty(), r, E(bh.p, bh.n), E(bn.p, bn.n),
+                    [&](E hv, E nv) -> bool { return f(hv, nv); });
+            });
             ref.tok("ok").b(f(S(bh.p, bh.n), S(bn.p, bn.n)));
             return true;
         }
@@ -203,7 +268,12 @@ struct Run {
             auto b = in.list();
             Block<Char> ba(a, b);
             Block<Char> bb(b, a);
-            guarded(impl, [&](Out& o) { o.tok("ok").num(sign(E(ba.p, ba.n).compare(E(bb.p, bb.n)))); });
+            guarded(impl, [&](Out& o) {
+                int r = sign(E(ba.p, ba.n).compare(E(bb.p, bb.n)));
+                o.tok("ok").num(r);
+                null_probe(o, a.empty(), b.empty(), r, E(ba.p, ba.n), E(bb.p, bb.n),
+                    [&](E x, E y) -> int { return sign(x.compare(y)); });
+            });
             ref.tok("ok").num(sign(S(ba.p, ba.n).compare(S(bb.p, bb.n))));
             return true;
         }
@@ -273,10 +343,16 @@ struct Run {
         return false;
     }
 
-    template <typename V>
-    static void rel_out(Out& o, V const& a, V const& b)
+    template <typename A, typename B>
+    static void rel_out(Out& o, A const& a, B const& b)
     {
         o.tok("ok").b(a == b).b(a != b).b(a < b).b(a <= b).b(a > b).b(a >= b);
+    }
+    template <typename A, typename B>
+    static int rel_mask(A const& a, B const& b)
+    {
+        return (a == b ? 1 : 0) | (a != b ? 2 : 0) | (a < b ? 4 : 0) | (a <= b ? 8 : 0) | (a > b ? 16 : 0)
+             | (a >= b ? 32 : 0);
     }
 
     static bool run(std::string const& op, Toks& in, Out& impl, Out& ref)
@@ -326,8 +402,93 @@ struct Run {
             auto b = in.list();
             Block<Char> ba(a, b);
             Block<Char> bb(b, a);
-            guarded(impl, [&](Out& o) { rel_out(o, E(ba.p, ba.n), E(bb.p, bb.n)); });
+            guarded(impl, [&](Out& o) {
+                rel_out(o, E(ba.p, ba.n), E(bb.p, bb.n));
+                null_probe(o, a.empty(), b.empty(), rel_mask(E(ba.p, ba.n), E(bb.p, bb.n)), E(ba.p, ba.n),
+                    E(bb.p, bb.n), [&](E x, E y) -> int { return rel_mask(x, y); });
+            });
             rel_out(ref, S(ba.p, ba.n), S(bb.p, bb.n));
+            return true;
+        }
+        // heterogeneous comparisons: one operand is a Char const* (converted to a view by the operator's
+        // type_identity parameter).  rel_pl: C string OP view;  rel_pr: view OP C string
+        if (op == "rel_pl" || op == "rel_pr") {
+            auto first  = in.list();
+            auto second = in.list();
+            bool const ptrLeft = op == "rel_pl";
+            auto const& sv     = ptrLeft ? second : first; // the view operand
+            auto const& cs     = ptrLeft ? first : second; // the C string operand
+            Block<Char> bv(sv, cs);
+            Block<Char> bs(with_nul(cs), sv);
+            Char const* ptr = bs.p;
+            if (ptrLeft) {
+                guarded(impl, [&](Out& o) { rel_out(o, ptr, E(bv.p, bv.n)); });
+                rel_out(ref, ptr, S(bv.p, bv.n));
+            } else {
+                guarded(impl, [&](Out& o) { rel_out(o, E(bv.p, bv.n), ptr); });
+                rel_out(ref, S(bv.p, bv.n), ptr);
+            }
+            return true;
+        }
+        if (op == "front" || op == "back" || op == "at") {
+            auto h   = in.list();
+            auto pos = op == "at" ? static_cast<std::size_t>(in.unum()) : std::size_t{0};
+            Block<Char> bh(h, h);
+            guarded(impl, [&](Out& o) {
+                auto v        = E(bh.p, bh.n);
+                auto const& r = op == "front" ? v.front() : op == "back" ? v.back() : v[pos];
+                o.tok("ok").num(static_cast<i64>(r)).num(static_cast<i64>(&r - bh.p));
+            });
+            bool const valid = op == "at" ? pos < h.size() : !h.empty();
+            if (valid) {
+                auto v        = S(bh.p, bh.n);
+                auto const& r = op == "front" ? v.front() : op == "back" ? v.back() : v[pos];
+                ref.tok("ok").num(static_cast<i64>(r)).num(static_cast<i64>(&r - bh.p));
+            }
+            return true;
+        }
+        if (op == "swap") {
+            auto a = in.list();
+            auto b = in.list();
+            Block<Char> ba(a, b);
+            Block<Char> bb(b, a);
+            guarded(impl, [&](Out& o) {
+                auto x = E(ba.p, ba.n);
+                auto y = E(bb.p, bb.n);
+                x.swap(y);
+                put_view(o, x, bb.p); // x now views b's block
+                put_view(o, y, ba.p);
+            });
+            {
+                auto x = S(ba.p, ba.n);
+                auto y = S(bb.p, bb.n);
+                x.swap(y);
+                put_view(ref, x, bb.p);
+                put_view(ref, y, ba.p);
+            }
+            return true;
+        }
+        // basic_string_view(first, last): the view every other operation would then work on
+        if (op == "ctor_it") {
+            auto h = in.list();
+            Block<Char> bh(h, h);
+            Char const* first = bh.p;
+            Char const* last  = bh.p + bh.n;
+            guarded(impl, [&](Out& o) { put_view(o, E(first, last), bh.p); });
+            put_view(ref, S(first, last), bh.p);
+            return true;
+        }
+        if (op == "substr_d0" || op == "substr_d1") {
+            auto h   = in.list();
+            auto pos = op == "substr_d1" ? static_cast<std::size_t>(in.unum()) : std::size_t{0};
+            Block<Char> bh(h, h);
+            if (op == "substr_d0") {
+                guarded(impl, [&](Out& o) { put_view(o, E(bh.p, bh.n).substr(), bh.p); });
+                put_view(ref, S(bh.p, bh.n).substr(), bh.p);
+            } else {
+                guarded(impl, [&](Out& o) { put_view(o, E(bh.p, bh.n).substr(pos), bh.p); });
+                if (pos <= h.size()) { put_view(ref, S(bh.p, bh.n).substr(pos), bh.p); }
+            }
             return true;
         }
         if (op == "substr") {
@@ -339,25 +500,42 @@ struct Run {
             if (pos <= h.size()) { put_view(ref, S(bh.p, bh.n).substr(pos, cnt), bh.p); }
             return true;
         }
-        if (op == "copy") {
+        if (op == "copy" || op == "copy_d") {
             auto h   = in.list();
             auto cnt = static_cast<std::size_t>(in.unum());
-            auto pos = static_cast<std::size_t>(in.unum());
+            auto pos = op == "copy" ? static_cast<std::size_t>(in.unum()) : std::size_t{0};
             Block<Char> bh(h, h);
-            std::vector<i64> room((cnt < h.size() ? cnt : h.size()), 0);
+            // the destination has exactly the number of cells the standard says are written ([string.view.ops]:
+            // rlen = min(n, size() - pos)); a write beyond them lands in the guard zone: poisoned in the sanitizer
+            // build, filled with the letter 'a' and inspected afterwards in the plain build.  The cells themselves
+            // start as 1 (neither a terminator nor a character of the alphabets).
+            auto const avail = pos <= h.size() ? h.size() - pos : std::size_t{0};
+            std::vector<i64> room((cnt < avail ? cnt : avail), 1);
+            // (the Block is constructed outside guarded(): a contract failure leaves by longjmp)
+            auto run = [&](Out& o, auto view, Block<Char>& dest) {
+                auto r = op == "copy" ? view.copy(dest.p, cnt, pos) : view.copy(dest.p, cnt);
+                o.tok("ok").unum(r).num(static_cast<i64>(r));
+                for (std::size_t i = 0; i < r && i < room.size(); ++i) { o.num(static_cast<i64>(dest.p[i])); }
+#if !defined(__SANITIZE_ADDRESS__)
+                for (std::size_t i = 0; i < 8; ++i) {
+                    if (dest.p[room.size() + i] != static_cast<Char>('a')) {
+                        o.tok("wrote-past-rlen-at").unum(room.size() + i);
+                        break;
+                    }
+                }
+                if (reinterpret_cast<Char const*>(dest.raw)[Block<Char>::G / sizeof(Char) - 1]
+                    != static_cast<Char>('a')) {
+                    o.tok("wrote-before-dest");
+                }
+#endif
+            };
             {
                 Block<Char> dest(room, {});
-                guarded(impl, [&](Out& o) {
-                    auto r = E(bh.p, bh.n).copy(dest.p, cnt, pos);
-                    o.tok("ok").unum(r).num(static_cast<i64>(r));
-                    for (std::size_t i = 0; i < r; ++i) { o.num(static_cast<i64>(dest.p[i])); }
-                });
+                guarded(impl, [&](Out& o) { run(o, E(bh.p, bh.n), dest); });
             }
             if (pos <= h.size()) {
                 Block<Char> dest(room, {});
-                auto r = S(bh.p, bh.n).copy(dest.p, cnt, pos);
-                ref.tok("ok").unum(r).num(static_cast<i64>(r));
-                for (std::size_t i = 0; i < r; ++i) { ref.num(static_cast<i64>(dest.p[i])); }
+                run(ref, S(bh.p, bh.n), dest);
             }
             return true;
         }
